@@ -122,35 +122,68 @@ structure SubClosed (d : DSub) : Prop where
   delFin : d.delFin = none
   tearFin : d.tearFin = none
 
+/-- the creator of a generation while it is still inside the source's `Subscribe` (region R3 not
+    finished): registered on the subject, Share's teardown not registered yet -/
+structure SubOpenU (g : Nat) (d : DSub) : Prop where
+  status : d.status = 0
+  done : d.done = false
+  delFin : d.delFin = some g
+  tearFin : d.tearFin = none
+
+/-- **pending creator** (nesting depth one): `ug` = the generation whose creator is still inside the
+    source's `Subscribe` (its R3 is unfinished: upstream teardown not registered on the proxy, proxy not
+    yet added to the `sourceSubscription`, Share's teardown not registered); `ua` = that creator as long
+    as it is still open. Between top-level events nothing is pending: `Pend.idle`. -/
+structure Pend where
+  ug : Option Nat := none
+  ua : Option Nat := none
+
+def Pend.idle : Pend := {}
+
+/-- the pending creator has ended (terminal inside its own `Subscribe`) -/
+def Pend.drop (P : Pend) : Pend := { P with ua := none }
+
+/-- references counted in `refCount` that belong to no open subscriber: the pending creator once it
+    has been closed (it gives its reference back only when its `Subscribe` returns) -/
+def Pend.c (P : Pend) : Nat := if P.ug.isSome && P.ua.isNone then 1 else 0
+
+@[simp] theorem Pend.c_idle : Pend.idle.c = 0 := rfl
+@[simp] theorem Pend.drop_idle : Pend.idle.drop = Pend.idle := rfl
+@[simp] theorem Pend.idle_ug : Pend.idle.ug = none := rfl
+@[simp] theorem Pend.idle_ua : Pend.idle.ua = none := rfl
+
 /-- the current generation while its upstream subscription is live -/
-structure GenActive (s : St) (g : Nat) : Prop where
+structure GenActive (P : Pend) (s : St) (g : Nat) : Prop where
   pStatus : (s.gens g).pStatus = 0
   pDone : (s.gens g).pDone = false
-  pFin : (s.gens g).pFin = true
   upSub : (s.gens g).upSub = true
   upTorn : (s.gens g).upTorn = false
-  ssFins : (s.gens g).ssFins = [g]
   ssDone : (s.gens g).ssDone = false
   isOpen : (s.gens g).subj.status = .open
   flagE : s.flagE = false
   flagC : s.flagC = false
   obs : (s.gens g).subj.obs = openSubs s
-  subs : ∀ i, i < s.nsubs → (s.subs i).status = 0 → SubOpen g (s.subs i)
+  /-- R3 of its creator is finished -/
+  fin : P.ug ≠ some g → (s.gens g).pFin = true ∧ (s.gens g).ssFins = [g]
+  /-- … or still running: then the creator is the pending open subscriber -/
+  unf : P.ug = some g → (s.gens g).pFin = false ∧ (s.gens g).ssFins = [] ∧
+    ∃ A, P.ua = some A ∧ A < s.nsubs ∧ SubOpenU g (s.subs A)
+  subs : ∀ i, i < s.nsubs → (s.subs i).status = 0 → P.ua ≠ some i → SubOpen g (s.subs i)
 
 /-- the current generation after a source terminal that the configuration does not reset on:
     the terminated subject stays the shared one for ever -/
-structure GenLatched (s : St) (g : Nat) : Prop where
+structure GenLatched (P : Pend) (s : St) (g : Nat) : Prop where
   pStatus : (s.gens g).pStatus ≠ 0
   pDone : (s.gens g).pDone = true
   pFin : (s.gens g).pFin = false
   upSub : (s.gens g).upSub = true
-  upTorn : (s.gens g).upTorn = true
-  ssFins : (s.gens g).ssFins = [g]
   ssDone : (s.gens g).ssDone = false
   closed : (s.gens g).subj.status ≠ .open
   obs : (s.gens g).subj.obs = []
   flag : s.flagE = true ∨ s.flagC = true
   noOpen : openSubs s = []
+  fin : P.ug ≠ some g → (s.gens g).upTorn = true ∧ (s.gens g).ssFins = [g]
+  unf : P.ug = some g → (s.gens g).upTorn = false ∧ (s.gens g).ssFins = [] ∧ P.ua = none
 
 /-- a generation that has been reset -/
 structure GenStale (x : Gen) : Prop where
@@ -163,16 +196,32 @@ structure GenStale (x : Gen) : Prop where
   ssDone : x.ssDone = true
   obs : x.subj.obs = []
 
-/-- what holds of every reachable state between two events -/
-structure Inv (s : St) : Prop where
+/-- the pending generation after it has been reset (by a terminal inside its creator's `Subscribe`):
+    ended by the source, its teardown not run yet (it is not even registered) -/
+structure GenEnded (x : Gen) : Prop where
+  pStatus : x.pStatus ≠ 0
+  pDone : x.pDone = true
+  pFin : x.pFin = false
+  upSub : x.upSub = true
+  upTorn : x.upTorn = false
+  ssFins : x.ssFins = []
+  ssDone : x.ssDone = true
+  obs : x.subj.obs = []
+
+/-- what holds of every reachable state between two events (`P = Pend.idle`), and — with a pending
+    creator `P` — between two events that happen inside the source's `Subscribe` -/
+structure Inv (P : Pend) (s : St) : Prop where
   shared : s.sourceSubscription = s.subject
   closed : ∀ i, i < s.nsubs → (s.subs i).status ≠ 0 → SubClosed (s.subs i)
-  stale : ∀ g, g < s.ngens → s.subject ≠ some g → GenStale (s.gens g)
-  count : s.refCount = (openSubs s).length
+  stale : ∀ g, g < s.ngens → s.subject ≠ some g → P.ug ≠ some g → GenStale (s.gens g)
+  ended : ∀ g, g < s.ngens → s.subject ≠ some g → P.ug = some g → GenEnded (s.gens g) ∧ P.ua = none
+  count : s.refCount = ((openSubs s).length + P.c : Nat)
   idle : s.subject = none → s.flagE = false ∧ s.flagC = false ∧ openSubs s = []
-  cur : ∀ g, s.subject = some g → g < s.ngens ∧ (GenActive s g ∨ GenLatched s g)
+  cur : ∀ g, s.subject = some g → g < s.ngens ∧ (GenActive P s g ∨ GenLatched P s g)
+  ugb : ∀ g, P.ug = some g → g < s.ngens
+  uab : ∀ A, P.ua = some A → P.ug = s.subject ∧ s.subject ≠ none
 
-theorem Inv.init : Inv {} := by
+theorem Inv.init : Inv Pend.idle {} := by
   constructor <;> simp [openSubs]
 
 /-! ### same control state -/
@@ -250,38 +299,52 @@ theorem GenStale.sim {s s' : St} (h : Sim s s') {g : Nat} (ho : GenStale (s.gens
    by rw [h.upSub]; exact ho.upSub, by rw [h.upTorn]; exact ho.upTorn, by rw [h.ssFins]; exact ho.ssFins,
    by rw [h.ssDone]; exact ho.ssDone, by rw [h.gObs]; exact ho.obs⟩
 
-theorem GenActive.sim {s s' : St} (h : Sim s s') {g : Nat} (ho : GenActive s g) : GenActive s' g where
+theorem SubOpenU.sim {s s' : St} (h : Sim s s') {g k : Nat} (ho : SubOpenU g (s.subs k)) : SubOpenU g (s'.subs k) :=
+  ⟨by rw [h.status]; exact ho.status, by rw [h.done]; exact ho.done, by rw [h.delFin]; exact ho.delFin,
+   by rw [h.tearFin]; exact ho.tearFin⟩
+
+theorem GenEnded.sim {s s' : St} (h : Sim s s') {g : Nat} (ho : GenEnded (s.gens g)) : GenEnded (s'.gens g) :=
+  ⟨by rw [h.pStatus]; exact ho.pStatus, by rw [h.pDone]; exact ho.pDone, by rw [h.pFin]; exact ho.pFin,
+   by rw [h.upSub]; exact ho.upSub, by rw [h.upTorn]; exact ho.upTorn, by rw [h.ssFins]; exact ho.ssFins,
+   by rw [h.ssDone]; exact ho.ssDone, by rw [h.gObs]; exact ho.obs⟩
+
+theorem GenActive.sim {P : Pend} {s s' : St} (h : Sim s s') {g : Nat} (ho : GenActive P s g) : GenActive P s' g where
   pStatus := by rw [h.pStatus]; exact ho.pStatus
   pDone := by rw [h.pDone]; exact ho.pDone
-  pFin := by rw [h.pFin]; exact ho.pFin
   upSub := by rw [h.upSub]; exact ho.upSub
   upTorn := by rw [h.upTorn]; exact ho.upTorn
-  ssFins := by rw [h.ssFins]; exact ho.ssFins
   ssDone := by rw [h.ssDone]; exact ho.ssDone
   isOpen := by rw [h.gStatus]; exact ho.isOpen
   flagE := by rw [h.flagE]; exact ho.flagE
   flagC := by rw [h.flagC]; exact ho.flagC
   obs := by rw [h.gObs, h.openSubs]; exact ho.obs
-  subs := fun i hi hs => (ho.subs i (by rw [← h.nsubs]; exact hi) (by rw [← h.status]; exact hs)).sim h
+  fin := fun hne => by rw [h.pFin, h.ssFins]; exact ho.fin hne
+  unf := fun he => by
+    obtain ⟨h1, h2, A, hA, hlt, hu⟩ := ho.unf he
+    exact ⟨by rw [h.pFin]; exact h1, by rw [h.ssFins]; exact h2, A, hA, by rw [h.nsubs]; exact hlt, hu.sim h⟩
+  subs := fun i hi hs hne => (ho.subs i (by rw [← h.nsubs]; exact hi) (by rw [← h.status]; exact hs) hne).sim h
 
-theorem GenLatched.sim {s s' : St} (h : Sim s s') {g : Nat} (ho : GenLatched s g) : GenLatched s' g where
+theorem GenLatched.sim {P : Pend} {s s' : St} (h : Sim s s') {g : Nat} (ho : GenLatched P s g) : GenLatched P s' g where
   pStatus := by rw [h.pStatus]; exact ho.pStatus
   pDone := by rw [h.pDone]; exact ho.pDone
   pFin := by rw [h.pFin]; exact ho.pFin
   upSub := by rw [h.upSub]; exact ho.upSub
-  upTorn := by rw [h.upTorn]; exact ho.upTorn
-  ssFins := by rw [h.ssFins]; exact ho.ssFins
   ssDone := by rw [h.ssDone]; exact ho.ssDone
   closed := by rw [h.gStatus]; exact ho.closed
   obs := by rw [h.gObs]; exact ho.obs
   flag := by rw [h.flagE, h.flagC]; exact ho.flag
   noOpen := by rw [h.openSubs]; exact ho.noOpen
+  fin := fun hne => by rw [h.upTorn, h.ssFins]; exact ho.fin hne
+  unf := fun he => by rw [h.upTorn, h.ssFins]; exact ho.unf he
 
 /-- the invariant does not see traces, stored values or drops -/
-theorem Inv.sim {s s' : St} (hi : Inv s) (h : Sim s s') : Inv s' where
+theorem Inv.sim {P : Pend} {s s' : St} (hi : Inv P s) (h : Sim s s') : Inv P s' where
   shared := by rw [h.sourceSubscription, h.subject]; exact hi.shared
   closed := fun i hlt hs => (hi.closed i (by rw [← h.nsubs]; exact hlt) (by rw [← h.status]; exact hs)).sim h
-  stale := fun g hg hne => (hi.stale g (by rw [← h.ngens]; exact hg) (by rw [← h.subject]; exact hne)).sim h
+  stale := fun g hg hne hu => (hi.stale g (by rw [← h.ngens]; exact hg) (by rw [← h.subject]; exact hne) hu).sim h
+  ended := fun g hg hne hu => by
+    have := hi.ended g (by rw [← h.ngens]; exact hg) (by rw [← h.subject]; exact hne) hu
+    exact ⟨this.1.sim h, this.2⟩
   count := by rw [h.refCount, h.openSubs]; exact hi.count
   idle := fun hn => by
     rw [h.flagE, h.flagC, h.openSubs]
@@ -292,5 +355,13 @@ theorem Inv.sim {s s' : St} (hi : Inv s) (h : Sim s s') : Inv s' where
     rcases this.2 with ha | hl
     · exact Or.inl (ha.sim h)
     · exact Or.inr (hl.sim h)
+  ugb := fun g hg => by rw [h.ngens]; exact hi.ugb g hg
+  uab := fun A hA => by rw [h.subject]; exact hi.uab A hA
+
+/-- with nothing pending the current live generation is finished -/
+theorem GenActive.pFin {s : St} {g : Nat} (h : GenActive Pend.idle s g) : (s.gens g).pFin = true := (h.fin (by simp)).1
+theorem GenActive.ssFins {s : St} {g : Nat} (h : GenActive Pend.idle s g) : (s.gens g).ssFins = [g] := (h.fin (by simp)).2
+theorem GenLatched.upTorn {s : St} {g : Nat} (h : GenLatched Pend.idle s g) : (s.gens g).upTorn = true := (h.fin (by simp)).1
+theorem GenLatched.ssFins {s : St} {g : Nat} (h : GenLatched Pend.idle s g) : (s.gens g).ssFins = [g] := (h.fin (by simp)).2
 
 end Ro.Share
